@@ -120,7 +120,8 @@ func main() {
 			c, out := runSigsetCase(*seed*1000003+uint64(i), *nops, stats)
 			fmt.Fprintf(w, "sigset\t%s\t%s\n", Str(c), Str(out))
 		}
-	case "votes", "votesgen":
+	case "votes", "votesgen", "votesh":
+		votesHeights = suite == "votesh"
 		for i := 0; i < *n; i++ {
 			if *only >= 0 && i != *only {
 				continue
